@@ -117,3 +117,24 @@ func writeReplay(dir string, rf *ReplayFile) string {
 	os.WriteFile(p, b, 0o644)
 	return p
 }
+
+// chainTest replays a counterexample of the C17 chain obligation: the real builders of the
+// segment are run on the text; reproduced means the input only spells such rules as rPUx, /
+// rUx, and the output still holds a read + unconfined-fallback exec rule without target.
+func chainTest(o *symex.Obligation, c Candidate) string {
+	text, _ := c.Values["text"].(string)
+	var b strings.Builder
+	b.WriteString("package builder\n\nimport (\n\t\"fmt\"\n\t\"strings\"\n\t\"testing\"\n\n\t\"github.com/roddhjav/apparmor.d/pkg/paths\"\n)\n\n")
+	b.WriteString("func TestVerifReplay(t *testing.T) {\n")
+	fmt.Fprintf(&b, "\ttext := %s\n", strconv.Quote(text))
+	b.WriteString("\tBuilds = nil\n")
+	for _, n := range strings.Split(o.Meta["segment"], ">") {
+		fmt.Fprintf(&b, "\tBuilds = append(Builds, Builders[%q])\n", n)
+	}
+	b.WriteString("\tout, err := Run(paths.New(\"replay\"), text)\n")
+	b.WriteString("\tv := []string{\"rPUx,\", \"rPux,\", \"rpUx,\", \"rpux,\", \"rUx,\", \"rux,\"}\n")
+	b.WriteString("\tpre := true\n\tfor _, w := range []string{\"rPux,\", \"rpUx,\", \"rpux,\", \"rux,\"} {\n\t\tif strings.Contains(text, w) {\n\t\t\tpre = false\n\t\t}\n\t}\n")
+	b.WriteString("\tleft := \"\"\n\tfor _, w := range v {\n\t\tif strings.Contains(out, w) {\n\t\t\tleft = w\n\t\t}\n\t}\n")
+	b.WriteString("\tfmt.Printf(\"VERIF_REPLAY reproduced=%v input=%q output=%q err=%v precondition=%v left=%q\\n\", pre && left != \"\", text, out, err, pre, left)\n}\n")
+	return b.String()
+}
